@@ -21,7 +21,7 @@ def decode(x):
 
 def run(c, p):
     from npstructures import RunLengthArray
-    rla = RunLengthArray.from_array(typed(c["vals"], "int64"))
+    rla = RunLengthArray.from_array(typed(c["vals"], p.get("dtype", "int64")))
     ix = p["ix"]
     if ix == "int":
         return decode(rla[pyint(c["i"])])
@@ -45,6 +45,10 @@ def run(c, p):
         return decode(rla[arr(c["starts"], "int64"):arr(c["stops"], "int64")])
     if ix == "ellipsis":
         return decode(rla[...])
+    if ix == "slice_then_all":
+        rla[slice(pyint(c["a"]), pyint(c["b"]), c["s"])]          # an index expression leaves the indexed array as it was
+        rla[slice(pyint(c["a"]), pyint(c["b"]), c["s"])]
+        return decode(rla[...])
     raise ValueError(ix)
 
 
@@ -52,7 +56,11 @@ def sym(E, p, kf):
     import z3
     from symx import specs
     n = E.concretize(E.int("n", 1, p["n"]))
-    vals = [E.bv(f"v{i}", 64) for i in range(n)]
+    DT = p.get("dtype", "int64")
+    vals = [E.bv(f"v{i}", c14.BITS[DT]) for i in range(n)]
+    if DT.startswith("float"):
+        for v in vals:
+            E.assume(z3.Not(z3.fpIsNaN(np._to_fp(v, np.dtype(DT)))))      # NaN never equals itself: runs of NaN are outside the canonical-form claim
     B = n + 2
     ix = p["ix"]
     c = dict(vals=vals)
@@ -66,7 +74,7 @@ def sym(E, p, kf):
         c["mask"] = [w > 0 for w in c["mvals"]]
     elif ix in ("mask", "rlmask"):
         c["mask"] = [E.bool(f"m{i}") for i in range(n)]
-    elif ix == "slice":
+    elif ix in ("slice", "slice_then_all"):
         pres = E.choose("pres", [(0, 0), (1, 0), (0, 1), (1, 1)])
         c["a"] = E.int("a", -B, B) if pres[0] else None
         c["b"] = E.int("b", -B, B) if pres[1] else None
@@ -116,6 +124,7 @@ def _sym2(E, p, c, got, n, vals, V):
     import z3
     from symx import specs
     ix = p["ix"]
+    DT = p.get("dtype", "int64")
     case = None
     if ix == "int":
         ok, i = specs.wrap_index(c["i"], n)
@@ -130,7 +139,7 @@ def _sym2(E, p, c, got, n, vals, V):
     if ix in ("list", "array"):
         res = got["items"][1]
         exp = [z3.Select(V, z3.If(i < 0, i + n, i)) for i in c["idx"]]
-        conds.append(specs.obs_goal(res, dict(k="array", flat=exp, shape=[len(exp)], dtype="int64")))
+        conds.append(specs.obs_goal(res, dict(k="array", flat=exp, shape=[len(exp)], dtype=DT)))
     elif ix in ("mask", "rlmask", "rlmask_ufunc"):
         res = got["items"][1]
         if res["k"] != "array" or len(res["shape"]) != 1:
@@ -150,19 +159,21 @@ def _sym2(E, p, c, got, n, vals, V):
         N = res["shape"][0]
         conds.append(cnt == N)
         for k in range(N):
-            conds.append(specs.eqv(res["flat"][k], z3.Select(V, first + k * c["s"])))
+            want = z3.Select(V, first + k * c["s"])
+            # float cells are compared by value (the encoding keeps one representative of a run of equal values: +0.0 and -0.0 are equal)
+            conds.append(c14.val_eq(res["flat"][k], want, DT) if DT.startswith("float") else specs.eqv(res["flat"][k], want))
     elif ix == "windows":
         res = got["items"][1]
         if res["k"] != "ragged":
             return dict(goal=False, got=got, case=case)
         conds += specs.ragged_matches(res["flat"], res["lens"], [e - s for s, e in zip(c["starts"], c["stops"])],
                                       lambda k, col: z3.Select(V, c["starts"][k] + col))
-    elif ix == "ellipsis":
-        conds.append(specs.obs_goal(got["items"][1], dict(k="array", flat=vals, shape=[n], dtype="int64")))
+    elif ix in ("ellipsis", "slice_then_all"):
+        conds.append(specs.obs_goal(got["items"][1], dict(k="array", flat=vals, shape=[n], dtype=DT)))
     if tag == "rla":
         dense, ev, vv = got["items"][1], got["items"][2], got["items"][3]
         if dense["shape"][0] > 0:
-            conds += c14.canon_conds(ev["flat"], vv["flat"], dense["shape"][0], "int64", distinct_neighbours=(ix in ("slice",) and c["s"] not in (1, None, -1)) or ix == "ellipsis")
+            conds += c14.canon_conds(ev["flat"], vv["flat"], dense["shape"][0], DT, distinct_neighbours=(ix in ("slice",) and c["s"] not in (1, None, -1)) or ix in ("ellipsis", "slice_then_all"))
     return dict(goal=specs.conj(conds), got=got, case=case)
 
 
@@ -178,7 +189,8 @@ def kf_match(case):
 
 def conc(case):
     p, c = case["p"], dict(case["c"])
-    c["vals"] = c14.signed_vals(c["vals"], "int64")
+    DT = p.get("dtype", "int64")
+    c["vals"] = c14.signed_vals(c["vals"], DT)
     if "mvals" in c:
         c["mvals"] = c14.signed_vals(c["mvals"], "int64")
     vals, ix = c["vals"], p["ix"]
@@ -186,38 +198,40 @@ def conc(case):
     got = outcome(lambda: run(c, p))
     A = common.ref_array
 
-    need_distinct = (ix == "slice" and c.get("s") not in (1, None, -1)) or ix == "ellipsis"
+    need_distinct = (ix == "slice" and c.get("s") not in (1, None, -1)) or ix in ("ellipsis", "slice_then_all")
     strip = lambda g: _strip(g, _canonical_concrete(g, need_distinct))
     if ix == "int":
         i = c["i"]
         if not -n <= i < n:
             return strip(got), common.refused()
-        exp = common.ref_scalar(vals[i], "int64")
+        exp = common.ref_scalar(vals[i], DT)
     elif ix in ("list", "array"):
-        exp = A([vals[i] for i in c["idx"]], [len(c["idx"])], "int64")
+        exp = A([vals[i] for i in c["idx"]], [len(c["idx"])], DT)
     elif ix == "rlmask_ufunc":
         sel = [v for v, m in zip(vals, c["mvals"]) if m > 0]
-        exp = A(sel, [len(sel)], "int64")
+        exp = A(sel, [len(sel)], DT)
     elif ix in ("mask", "rlmask"):
         sel = [v for v, m in zip(vals, c["mask"]) if m]
-        exp = A(sel, [len(sel)], "int64")
+        exp = A(sel, [len(sel)], DT)
     elif ix == "slice":
         sel = vals[slice(c["a"], c["b"], c["s"])]
-        exp = A(sel, [len(sel)], "int64")
+        exp = A(sel, [len(sel)], DT)
     elif ix == "windows":
-        exp = common.ref_ragged([vals[s:e] for s, e in zip(c["starts"], c["stops"])], "int64")
-    elif ix == "ellipsis":
-        exp = A(vals, [n], "int64")
+        exp = common.ref_ragged([vals[s:e] for s, e in zip(c["starts"], c["stops"])], DT)
+    elif ix in ("ellipsis", "slice_then_all"):
+        exp = A(vals, [n], DT)
     g = strip(got)
     tagv = g["items"][0] if g["k"] == "tuple" else None
-    return g, dict(k="tuple", items=[tagv if tagv is not None else dict(k="any"), exp, dict(k="scalar", val=True, dtype="py")])
+    want = dict(k="tuple", items=[tagv if tagv is not None else dict(k="any"), exp, dict(k="scalar", val=True, dtype="py")])
+    return (g, want, {"float_eq": True}) if DT.startswith("float") else (g, want)
 
 
 def jobs(tier, seed):
     q = tier == "quick"
     n = 4 if q else 5
     out = [dict(ix="int", n=n), dict(ix="list", n=n, m=2 if q else 3), dict(ix="array", n=n, m=2), dict(ix="mask", n=n), dict(ix="mask", n=n, aslist=True), dict(ix="rlmask", n=n), dict(ix="rlmask_ufunc", n=3 if q else 4),
-           dict(ix="windows", n=3 if q else 4, k=2), dict(ix="ellipsis", n=n)]
+           dict(ix="windows", n=3 if q else 4, k=2), dict(ix="ellipsis", n=n),
+           dict(ix="slice_then_all", n=3, s=2), dict(ix="slice_then_all", n=3, s=-1), dict(ix="slice_then_all", n=3, s=None)]
     for s in (1, 2, 3, -1, -2, -3) if not q else (1, 2, -1, -2, 3):
         out.append(dict(ix="slice", n=n, s=s))
     return [dict(h="C15.index", p=p) for p in out]
